@@ -176,7 +176,15 @@ theorem lifted_allM (c : Cfg) (m : Nat) (hv : c.Valid) (hm : c.iterable = false)
   have e8 : (base c m).wsnaps = wsIdeal c.W m := rfl
   have e9 : (base c m).mainSnaps = [] := rfl
   have hb := wsAfter_boundary c hv.1 hm he m hle hs
-  refine ⟨⟨?_, ?_, ?_, fun _ => h1, ?_, ?_⟩, ⟨?_, ?_, ?_, ?_, ?_, ?_, ?_⟩, ⟨fun _ => ?_, ?_⟩, ?_⟩
+  have hld : lastDue c m = m := by
+    cases m with
+    | zero => rfl
+    | succ k =>
+      have h0 : c.interval ≠ 0 := fun h0 => by have := hs.1 h0; omega
+      have hmf : mflag c k = true := by simp [mflag, h0, Nat.mod_eq_zero_of_dvd (hs.2 h0)]
+      rw [lastDue]; simp [hmf, okAt_errFree c he k (by omega)]
+  have hok : okCount c m = m := okCount_errFree c he m hle
+  refine ⟨⟨?_, ?_, ?_, fun _ => h1, ?_, ?_⟩, ⟨?_, ?_, ?_, ?_, ?_, ?_, ?_, ?_⟩, ⟨fun _ => ?_, ?_⟩, ?_⟩
   · rw [hc.rcvdIdx, hc.obs, e1, e2, Nat.zero_add, List.append_nil]
     unfold preObs
     rw [taskObs_map_expected]
@@ -195,15 +203,13 @@ theorem lifted_allM (c : Cfg) (m : Nat) (hv : c.Valid) (hm : c.iterable = false)
     apply prime_ms_lo c _ _ _ hv hm hio hmid0
     · rw [e9, e5, Nat.sub_self]; rfl
     · rw [e5]; exact Nat.le_refl _
-  · intro _; rw [hc.numYielded, hc.rcvdIdx, e1, e6, Nat.zero_add]
-  · intro _
-    rw [hc.obs, e2, List.append_nil]
+  · rw [hc.rcvdIdx, e1, Nat.zero_add]; exact hle
+  · rw [hc.numYielded, hc.rcvdIdx, e1, e6, Nat.zero_add, hok]
+  · rw [hc.obs, e2, List.append_nil]
     exact not_mem_map_expected _ _ (fun it => by cases it <;> simp [expected])
-  · intro h0; rw [hc.snap, e7]; exact hs.1 h0
-  · intro h0
-    rw [hc.snap, hc.numYielded, e6, e7]
-    exact ⟨hs.2 h0, Nat.le_refl _, by have := Nat.pos_of_ne_zero h0; simp only; omega⟩
-  · intro _; rw [hc.snap, e7]; exact ⟨rfl, rfl⟩
+  · rw [hc.snap, hc.rcvdIdx, e1, e7, Nat.zero_add, hld]
+  · rw [hc.snap, e7]; simp only; rw [hok]
+  · rw [hc.snap, e7]
   · exact prime_pos c _ _ hv hm hio hmid0 hpos0
   · rw [hc.wsnaps, hc.rcvdIdx, e1, e8, Nat.zero_add, hb]
   · rw [hc.snap, e7]; simp only; rw [hb]
